@@ -125,6 +125,20 @@ def judgeLossy (spec dtype : String) (data dec : List (List Nat)) : Bool :=
            within a b (slackD + 2 * sc * slackN) (2 * sc * slackD)
          | _, _ => x == y)
      | none => false)
+  | ["zfp", "reversible", _] =>
+    -- the reversible mode is lossless by its definition, on every data type the codec accepts
+    data == dec
+  | ["zfp", "accuracy", tn, td] =>
+    -- fixed-accuracy mode: the absolute error is bounded by the tolerance (finite floats)
+    (match tn.toNat?, td.toNat? with
+     | some a, some b => data.length == dec.length && (data.zip dec).all (fun (x, y) =>
+         match ratOf dtype x, ratOf dtype y with
+         | some p, some q => within p q a b
+         | _, _ => false)
+     | _, _ => false)
+  | ["zfp", "precision", _] | ["zfp", "rate", _] =>
+    -- no tolerance is prescribed: decoding succeeds with the right number of elements (the declared size is judged apart)
+    data.length == dec.length && (data.zip dec).all (fun (x, y) => x.length == y.length)
   | _ => false
 
 /-- `c03 vdec codec=<vlenv2|vlen:…> shape=<n> bytes=<hex>`: decode an arbitrary byte string as a chunk of `n`
